@@ -124,6 +124,9 @@ Definition shell_fuel (d : dag) : nat := S (S (length (rev_edges d))).
 Definition shell_invalid (d : dag) (seed : tid) : list tid :=
   fst (shell_loop (shell_fuel d) (rev_edges d) [seed] []).
 
+(* executable reachability (any graph): a depends on c iff the work-list started at c reaches a *)
+Definition depends_on_b (d : dag) (a c : tid) : bool := mem a (shell_invalid d c).
+
 (* a shell session: invalidate(t) for each seed in turn (the reverse map is built once) *)
 Definition shell_session (d : dag) (seeds : list tid) : list tid :=
   flat_map (shell_invalid d) seeds.
@@ -134,16 +137,23 @@ Definition shell_store (d : dag) (seeds : list tid) (st : store) : store :=
 Definition seeds_of (d : dag) (m : matcher) : list tid :=
   map n_tid (filter (fun n => m (n_name n)) d).
 
-(* ---- a following `jug execute` by one worker, in creation order -----------------------------------
-   a task object is run iff its result cannot be loaded when its turn comes and its dependencies
-   can; running stores the result.  Returns the final store and the invocation log. *)
-Fixpoint exec_from (d : dag) (st : store) (log : list tid) : store * list tid :=
-  match d with
-  | [] => (st, rev log)
+(* ---- a following `jug execute` by one worker -------------------------------------------------------
+   execution_loop keeps going round the task list until no task can run: a task object is run iff
+   its result cannot be loaded and its dependencies can; running stores the result.  One pass in
+   creation order per round; [length d] rounds exhaust an acyclic graph (InvalidateFacts.v).
+   Returns the final store and the invocation log. *)
+Fixpoint exec_pass (ns : list node) (st : store) (log : list tid) : store * list tid :=
+  match ns with
+  | [] => (st, log)
   | n :: r =>
-      if st (n_tid n) then exec_from r st log
-      else if forallb st (n_deps n) then exec_from r (st_add st (n_tid n)) (n_tid n :: log)
-      else exec_from r st log
+      if st (n_tid n) then exec_pass r st log
+      else if forallb st (n_deps n) then exec_pass r (st_add st (n_tid n)) (n_tid n :: log)
+      else exec_pass r st log
   end.
-Definition exec_log (d : dag) (st : store) : list tid := snd (exec_from d st []).
-Definition exec_store (d : dag) (st : store) : store := fst (exec_from d st []).
+Fixpoint exec_rounds (k : nat) (d : dag) (st : store) (log : list tid) : store * list tid :=
+  match k with
+  | O => (st, log)
+  | S k' => exec_rounds k' d (fst (exec_pass d st log)) (snd (exec_pass d st log))
+  end.
+Definition exec_log (d : dag) (st : store) : list tid := rev (snd (exec_rounds (length d) d st [])).
+Definition exec_store (d : dag) (st : store) : store := fst (exec_rounds (length d) d st []).
